@@ -136,11 +136,12 @@ let do_find flen dlen comps =
   | Fault f -> show_fault f
 
 (* tmpf <envk> <dirlen> <tplhex> <len> <cap> <umask-octal> <picks> <nexist> <flags>   (spiftool_temp_file, one call)
-   the directory is dirlen times 'd' here and the harness's work directory spelled with dirlen characters there: only its
+   the directory is dirlen times '/' here and the harness's work directory spelled with dirlen characters there: only its
    length enters the result, and both sides print it as "D+" *)
 let do_tmpf envk dirlen tplhex len cap um picks nexist flags =
   let n = int_of_string dirlen in
-  let dir = List.init n (fun _ -> z_of_int 100) in
+  (* '/' as the filler: a template never contains one, so no template is mistaken for a piece of the directory *)
+  let dir = List.init n (fun _ -> z_of_int 47) in
   let tplb = if tplhex = "-" then [] else zbytes_of_hex tplhex in
   let len = int_of_string len and cap = int_of_string cap in
   let um = int_of_string ("0o" ^ um) in
